@@ -7,6 +7,8 @@ VERIF = os.path.dirname(os.path.dirname(os.path.abspath(__file__)))
 sys.path.insert(0, os.path.join(VERIF, "tools"))
 import build as builder  # noqa
 
+# drills on scratch copies redirect evidence / replays / work directories so that they never touch the committed ones
+OUT = os.environ.get("VERIF_OUT", VERIF)
 NCPU = os.cpu_count() or 16
 SYMBOLIZER = "/usr/lib/llvm-14/bin/llvm-symbolizer"
 
@@ -206,7 +208,7 @@ def match_known(prop, key, known):
 
 
 def write_replay(prop, viol):
-    d = os.path.join(VERIF, "replays", prop)
+    d = os.path.join(OUT, "replays", prop)
     os.makedirs(d, exist_ok=True)
     body = {"property": prop, "key": viol["key"], "msg": viol.get("msg", "")[:2000], "obs": viol.get("obs"), "replay": viol["replay"]}
     h = hashlib.sha256(json.dumps(body["replay"], sort_keys=True).encode() + viol["key"].encode()).hexdigest()[:16]
@@ -258,8 +260,8 @@ def finish(prop, tier, seed, merged, rule, t0, assumptions, level="exploration",
         cov.update(extra_cov)
     ev = {"property_id": prop, "tier": tier, "seed": int(seed), "level": level, "coverage": cov,
           "assumptions": assumptions, "wall_s": round(time.time() - t0, 2), "violations": len(printed)}
-    os.makedirs(os.path.join(VERIF, "evidence"), exist_ok=True)
-    with open(os.path.join(VERIF, "evidence", prop + ".json"), "w") as f:
+    os.makedirs(os.path.join(OUT, "evidence"), exist_ok=True)
+    with open(os.path.join(OUT, "evidence", prop + ".json"), "w") as f:
         json.dump(ev, f, indent=1, default=str)
     print("%s %s seed=%s: evaluations=%d nontrivial=%d distinct=%d violations=%d known=%d inconclusive=%d harness_failures=%d wall=%.1fs" % (
         prop, tier, seed, merged.evaluations, merged.nontrivial, merged.distinct, len(printed), len(known_hits),
@@ -282,7 +284,7 @@ def finish(prop, tier, seed, merged, rule, t0, assumptions, level="exploration",
 
 
 def workdir(prop):
-    d = os.path.join(VERIF, "work", prop)
+    d = os.path.join(OUT, "work", prop)
     shutil.rmtree(d, ignore_errors=True)
     os.makedirs(d, exist_ok=True)
     return d
